@@ -187,6 +187,7 @@ class Cluster:
         self.env = dict(os.environ)
         self.env.update(env or {})
         self.starts = [0] * n
+        self.probes_sent = 0     # readiness PINGs that reached a node: each one becomes a log entry
         peers = ",".join("http://127.0.0.1:%d" % p for p in self.raft_ports)
         for i in range(n):
             nd = self.node_dir(i)
@@ -270,9 +271,11 @@ class Cluster:
             if not self.alive(i):
                 return "node %d exited during start-up: %s" % (i + 1, self.output(i, 1500))
             try:
-                c = self.client(i, timeout=3.0)
+                c = self.client(i, timeout=5.0)
                 try:
-                    r = c.cmd([b"ping"])
+                    c.send([b"ping"])
+                    self.probes_sent += 1
+                    r = c.read()
                 finally:
                     c.close()
                 if r == "+" + hx(b"PONG"):
